@@ -99,6 +99,8 @@ pub(crate) struct Gen<'a> {
     pub actions: Vec<Action>,
     pub uniq: u32,
     pub n_conns_target: usize,
+    /// connections never chosen by the random part (driven by the scenario itself)
+    pub exclude: Vec<usize>,
 }
 
 fn ip_for(i: usize, v6: bool) -> String {
@@ -113,7 +115,7 @@ impl<'a> Gen<'a> {
     pub(crate) fn new(seed: u64, cfg: &SimConfig, prof: &'a Profile) -> Gen<'a> {
         let mut r = Rng::new(seed);
         let n = r.range(prof.conns.0, prof.conns.1);
-        Gen { r, m: Model::new(cfg), prof, actions: vec![], uniq: 0, n_conns_target: n }
+        Gen { r, m: Model::new(cfg), prof, actions: vec![], uniq: 0, n_conns_target: n, exclude: vec![] }
     }
 
     fn text(&mut self) -> String {
@@ -122,11 +124,11 @@ impl<'a> Gen<'a> {
         format!("t{}{}", self.uniq, extras[self.r.below(extras.len())])
     }
 
-    fn registered_conns(&self) -> Vec<usize> {
-        (0..self.m.conns.len()).filter(|&c| self.m.conns[c].alive && self.m.conns[c].registered && !self.m.conns[c].deaf).collect()
+    pub(crate) fn registered_conns(&self) -> Vec<usize> {
+        (0..self.m.conns.len()).filter(|&c| self.m.conns[c].alive && self.m.conns[c].registered && !self.m.conns[c].deaf && !self.exclude.contains(&c)).collect()
     }
     fn unregistered_conns(&self) -> Vec<usize> {
-        (0..self.m.conns.len()).filter(|&c| self.m.conns[c].alive && !self.m.conns[c].registered).collect()
+        (0..self.m.conns.len()).filter(|&c| self.m.conns[c].alive && !self.m.conns[c].registered && !self.exclude.contains(&c)).collect()
     }
     fn nick_of(&self, c: usize) -> String {
         self.m.conns[c].nick.clone().unwrap_or_default()
@@ -781,7 +783,7 @@ impl<'a> Gen<'a> {
                 self.say(c, &line)
             }
             K::Eof => {
-                let all: Vec<usize> = (0..self.m.conns.len()).filter(|&c| self.m.conns[c].alive).collect();
+                let all: Vec<usize> = (0..self.m.conns.len()).filter(|&c| self.m.conns[c].alive && !self.exclude.contains(&c)).collect();
                 if all.is_empty() {
                     return false;
                 }
@@ -803,7 +805,7 @@ impl<'a> Gen<'a> {
                 self.emit(vec![Action::Send { c, d: esc(&d) }, Action::CloseWrite { c }])
             }
             K::Reset => {
-                let all: Vec<usize> = (0..self.m.conns.len()).filter(|&c| self.m.conns[c].alive).collect();
+                let all: Vec<usize> = (0..self.m.conns.len()).filter(|&c| self.m.conns[c].alive && !self.exclude.contains(&c)).collect();
                 if all.is_empty() {
                     return false;
                 }
